@@ -79,7 +79,7 @@ impl Small {
 }
 impl Space for Small {
     fn name(&self) -> String {
-        format!("every table of length 0..={} over {{00,'a',C3,A9}} ({} tables) x every offset 0..=len+2 and {{usize::MAX, usize::MAX/2}}", self.maxlen, self.size())
+        format!("every table of length 0..={} over {{00,'a',C3,A9}} ({} tables) x every offset 0..=len+2, 2^32+o and 2^40+o for o in 0..=len, and {{usize::MAX, usize::MAX/2}}", self.maxlen, self.size())
     }
     fn size(&self) -> u64 {
         (0..=self.maxlen).map(|l| 4u64.pow(l)).sum()
@@ -91,7 +91,8 @@ impl Space for Small {
         let t = Small::table(idx);
         let mut dig = Fnv::new();
         let mut some = 0;
-        for off in (0..=t.len() + 2).chain([usize::MAX / 2, usize::MAX]) {
+        let far: Vec<usize> = (0..=t.len()).flat_map(|o| [(1usize << 32) + o, (1usize << 40) + o]).collect();
+        for off in (0..=t.len() + 2).chain([usize::MAX / 2, usize::MAX]).chain(far) {
             if check_one(&t, off, out, &mut dig) {
                 some += 1;
             }
@@ -134,13 +135,59 @@ impl Space for Large {
     }
 }
 
+/// Byte walks around the terminator: table lengths around word boundaries, the NUL at every
+/// position, the byte before it taking all 256 values, four fill patterns.
+struct ByteWalk;
+const BW_LENS: [usize; 7] = [8, 9, 15, 16, 17, 24, 31];
+const BW_FILL: [u8; 4] = [0x41, 0x01, 0x80, 0xff];
+impl Space for ByteWalk {
+    fn name(&self) -> String {
+        "byte walks: table length in {8,9,15,16,17,24,31} x NUL at every position x the byte before the NUL over all 256 values x fill byte in {41,01,80,ff}; every offset".into()
+    }
+    fn size(&self) -> u64 {
+        (BW_LENS.iter().sum::<usize>() * 4) as u64
+    }
+    fn describe(&self, idx: u64) -> Value {
+        let (len, p, f) = Self::decode(idx);
+        json!({"len": len, "nul_position": p, "fill": format!("{:02x}", f), "byte_before_nul": "all 256 values"})
+    }
+    fn run(&self, idx: u64, out: &mut Outcome) {
+        let (len, p, f) = Self::decode(idx);
+        let mut dig = Fnv::new();
+        for v in 0..=255u8 {
+            let mut t = vec![f; len];
+            t[p] = 0;
+            if p > 0 {
+                t[p - 1] = v;
+            }
+            for off in 0..=len {
+                check_one(&t, off, out, &mut dig);
+            }
+        }
+        out.nontrivial(dig.get() ^ idx);
+    }
+}
+impl ByteWalk {
+    fn decode(idx: u64) -> (usize, usize, u8) {
+        let f = BW_FILL[(idx % 4) as usize];
+        let mut k = (idx / 4) as usize;
+        for l in BW_LENS {
+            if k < l {
+                return (l, k, f);
+            }
+            k -= l;
+        }
+        (8, 0, f)
+    }
+}
+
 pub fn build(tier: Tier) -> CheckDef {
     CheckDef {
         prop: "C15",
         level: "model_checking",
         rule: "exhaustive small-scope enumeration: every (table, offset) pair of the stated finite space is executed on the real StringTable and compared with the reference definition (longest NUL-free run iff offset inside and a NUL follows; get = the same bytes iff valid UTF-8). non-trivial = table with at least one valid string; distinct = distinct set of returned strings".into(),
         assumptions: vec!["alphabet {NUL, ASCII, UTF-8 lead byte C3, continuation byte A9}".into()],
-        spaces: vec![Box::new(Small { maxlen: tier.pick(8, 10) }), Box::new(Large { step: tier.pick(16, 1) })],
+        spaces: vec![Box::new(Small { maxlen: tier.pick(8, 10) }), Box::new(Large { step: tier.pick(16, 1) }), Box::new(ByteWalk)],
         abort_is_violation: false,
         hang_is_violation: false,
         exhaustive: true,
